@@ -18,13 +18,48 @@ RULE = (
     "two kinds of API operations")
 
 
+def _a(a, **kw):
+    d = {"a": a}
+    d.update(kw)
+    return d
+
+
+# an entitlement changed while the child is suspended: the certificate that
+# comes back at unsuspension (by the operator, or because the child calls
+# in) must fit the entitlement of that moment
+DIRECTED = [
+    {"actions": [
+        _a("AddCa", c="B", p="A", res=["p1", "p2", "a1"]), _a("Settle"),
+        _a("ChildSuspend", c="B", p="A"),
+        _a("ChildRes", c="B", p="A", res=["p1"]),
+        _a("ChildUnsuspend", c="B", p="A"),
+        _a("Step", task="sync_repo_A"), _a("Settle")]},
+    {"actions": [
+        _a("AddCa", c="B", p="A", res=["p1", "p2"]), _a("Settle"),
+        _a("AddCa", c="C", p="B", res=["p1", "p2"]), _a("Settle"),
+        _a("ChildSuspend", c="C", p="B"),
+        _a("ChildRes", c="C", p="B", res=["p2"]),
+        _a("Step", task="sync_C_with_parent_B"),
+        _a("Step", task="sync_repo_B"), _a("Settle")]},
+    {"actions": [
+        _a("AddCa", c="B", p="A", res=["p1", "p2"]), _a("Settle"),
+        _a("ChildSuspend", c="B", p="A"),
+        _a("ChildRes", c="B", p="A", res=["p1", "p2", "a1"]),
+        _a("ChildUnsuspend", c="B", p="A"), _a("Settle"),
+        _a("ChildSuspend", c="B", p="A"),
+        _a("ChildRes", c="B", p="A", res=["p2", "a1"]),
+        _a("Settle")]},
+]
+
+
 def run(tier, seed):
     return kc.run_property(
         PID, LEVEL, tier, seed, THEMES,
         quick_num=14 if len(THEMES) > 1 else 30, thorough_num=250,
         assumptions=kc.COMMON_ASSUMPTIONS, rule=RULE, needed_events=NEEDED,
         mc_cfgs=(['MC_Krill_q_chain.cfg', 'MC_Krill_q_life.cfg', 'MC_Krill_q_multi.cfg'] if tier == "quick" else ['MC_Krill_q_chain.cfg', 'MC_Krill_q_life.cfg', 'MC_Krill_q_multi.cfg', 'MC_Krill_chain.cfg', 'MC_Krill_life.cfg']),
-        directed=kc.MULTI_DIRECTED[:1], theme_nums={"multi": (6, 80)})
+        directed=DIRECTED + kc.MULTI_DIRECTED[:1],
+        theme_nums={"multi": (6, 80)})
 
 
 def replay(path, seed):
